@@ -30,13 +30,20 @@ type drvBuildResult struct {
 
 var drvFileRe = regexp.MustCompile(`p/mock_(I\d+)\.go:\d+`)
 
-func drvGlue(ifaces []corpIface, newExpr func(it corpIface) string) string {
+// drvFlags, when set, adds per-mock flags to the glue (mocks of one file generated with different template-data).
+var drvFlagsNone func(it corpIface) string
+
+func drvGlue(ifaces []corpIface, newExpr func(it corpIface) string, flags ...func(it corpIface) string) string {
 	var b strings.Builder
 	b.WriteString("package main\n\nimport (\n\t\"reflect\"\n\n\t\"example.com/m/p\"\n)\n\nvar mocks = []mockDesc{\n")
 	for _, it := range ifaces {
 		ms := append([]corpMethod{}, it.Methods...)
 		sort.Slice(ms, func(i, j int) bool { return ms[i].Name < ms[j].Name })
-		fmt.Fprintf(&b, "\t{Iface: %q, Struct: %q, New: %s, Type: reflect.TypeOf((*p.%s)(nil)).Elem(), Methods: []methodDesc{", it.Name, "Mock"+it.Name, newExpr(it), it.Name)
+		extra := ""
+		if len(flags) > 0 && flags[0] != nil {
+			extra = flags[0](it) + ", "
+		}
+		fmt.Fprintf(&b, "\t{Iface: %q, Struct: %q, New: %s, %sType: reflect.TypeOf((*p.%s)(nil)).Elem(), Methods: []methodDesc{", it.Name, "Mock"+it.Name, newExpr(it), extra, it.Name)
 		for _, m := range ms {
 			var ps []string
 			for _, p := range m.Params {
@@ -50,21 +57,26 @@ func drvGlue(ifaces []corpIface, newExpr func(it corpIface) string) string {
 	return b.String()
 }
 
-func drvBuild(c *core.Ctx, name, template string, data core.M, level string, ifaces []corpIface, mainAsset string, newExpr func(it corpIface) string) (*drvBuildResult, error) {
+func drvBuild(c *core.Ctx, name, template string, data core.M, level string, ifaces []corpIface, mainAsset string, newExpr func(it corpIface) string, flags ...func(it corpIface) string) (*drvBuildResult, error) {
 	cfg := core.M{
 		"template": template, "formatter": "goimports", "force-file-write": true, "log-level": "error",
 		"dir": "{{.InterfaceDir}}", "filename": "mock_{{.InterfaceName}}.go", "pkgname": "p",
 	}
 	ifc := core.M{}
-	for _, it := range ifaces {
-		if level == "iface" {
+	for i, it := range ifaces {
+		switch {
+		case level == "iface", level == "mixed" && i%2 == 0:
 			ifc[it.Name] = core.M{"config": core.M{"template-data": data}}
-		} else {
+		default:
 			ifc[it.Name] = core.M{}
 		}
 	}
 	if level == "root" {
 		cfg["template-data"] = data
+	}
+	if level == "mixed" {
+		// all mocks in ONE file: what one interface's settings switch on must not carry over to the next one rendered
+		cfg["filename"] = "mocks_all.go"
 	}
 	cfg["packages"] = core.M{core.ModPath + "/p": core.M{"interfaces": ifc}}
 	m, err := c.NewModule(name, map[string]string{"p/p.go": corpusSource(ifaces), ".mockery.yml": core.YAML(cfg)})
@@ -81,7 +93,7 @@ func drvBuild(c *core.Ctx, name, template string, data core.M, level string, ifa
 	live := append([]corpIface{}, ifaces...)
 	bin := filepath.Join(c.Scratch, "bin", name)
 	for attempt := 0; attempt < 6; attempt++ {
-		core.WriteTree(m.Dir, map[string]string{"glue.go": drvGlue(live, newExpr)})
+		core.WriteTree(m.Dir, map[string]string{"glue.go": drvGlue(live, newExpr, flags...)})
 		rb := core.Run(m.Dir, core.UserEnv(), 10*time.Minute, "", "go", "build", "-gcflags=-e", "-o", bin, ".")
 		if rb.Exit == 0 {
 			res.bin = bin
@@ -136,6 +148,7 @@ func C04(c *core.Ctx) error {
 	}
 	quick := core.Quick(c.Tier)
 	ifaces := corpus([]string{"mock", "callInfo", "calls", "sync", "fmt", "lockBase"}, !quick)
+	plainIfaces := corpus(nil, !quick)
 	depth := 4
 	if !quick {
 		depth = 5
@@ -146,8 +159,11 @@ func C04(c *core.Ctx) error {
 		level               string
 	}
 	var variants []variant
-	for _, level := range []string{"root", "iface"} {
+	for _, level := range []string{"root", "iface", "mixed"} {
 		for i := 0; i < 8; i++ {
+			if level == "mixed" && i == 0 {
+				continue
+			}
 			v := variant{skip: i&1 != 0, stub: i&2 != 0, resets: i&4 != 0, level: level}
 			v.name = fmt.Sprintf("skip-ensure=%v,stub-impl=%v,with-resets=%v@%s", v.skip, v.stub, v.resets, level)
 			variants = append(variants, v)
@@ -169,9 +185,26 @@ func C04(c *core.Ctx) error {
 		if v.resets {
 			data["with-resets"] = true
 		}
-		b, err := drvBuild(c, fmt.Sprintf("c04-%d", i), "matryer", data, v.level, ifaces, "c04/main.go.txt", func(it corpIface) string {
+		var flags func(it corpIface) string
+		if v.level == "mixed" {
+			// the data goes to every other interface of the file (those at even positions): each mock is driven
+			// with its own effective settings
+			pos := map[string]int{}
+			for k, it := range plainIfaces {
+				pos[it.Name] = k
+			}
+			flags = func(it corpIface) string {
+				on := pos[it.Name]%2 == 0
+				return fmt.Sprintf("Flags: map[string]bool{\"stub\": %v, \"resets\": %v}", on && v.stub, on && v.resets)
+			}
+		}
+		vIfaces := ifaces
+		if v.level == "mixed" {
+			vIfaces = plainIfaces // one shared file: an uncompilable mock (C01's subject) would take the others with it
+		}
+		b, err := drvBuild(c, fmt.Sprintf("c04-%d", i), "matryer", data, v.level, vIfaces, "c04/main.go.txt", func(it corpIface) string {
 			return fmt.Sprintf("func() any { return &p.Mock%s{} }", it.Name)
-		})
+		}, flags)
 		if err != nil {
 			c.Harness("%s: %v", v.name, err)
 			return
@@ -181,10 +214,10 @@ func C04(c *core.Ctx) error {
 			return
 		}
 		args := []string{fmt.Sprintf("-depth=%d", depth)}
-		if v.stub {
+		if v.stub && v.level != "mixed" {
 			args = append(args, "-stub")
 		}
-		if v.resets {
+		if v.resets && v.level != "mixed" {
 			args = append(args, "-resets")
 		}
 		r := core.Run(b.dir, core.UserEnv(), 40*time.Minute, "", b.bin, args...)
@@ -230,7 +263,7 @@ func C04(c *core.Ctx) error {
 	c.Ev.Set("corpus_interfaces", len(ifaces))
 	c.Ev.Set("skipped_uncompilable_mocks", core.SortedKeys(skippedAll))
 	c.Ev.Set("exhaustive", done == len(variants))
-	c.Ev.Set("rule", "for every corpus method (focus M, neighbour O in the same interface) and every template-data combination skip-ensure x stub-impl x with-resets, set at root level and at interface level: all operation sequences up to the depth over {set MFunc f0/f2/nil, call M with 3 argument tuples incl. zero/nil/empty-variadic, call O, MCalls, ResetMCalls, ResetCalls}, each replayed on a fresh mock through reflection and compared step by step with the list model (exactly-once forwarding, results unchanged, records = arguments in order under exported(parameter name), nil func => panic naming MFunc or stub zero values, resets clear exactly their list, earlier snapshots unchanged); states = distinct (method, model state) pairs reached")
+	c.Ev.Set("rule", "for every corpus method (focus M, neighbour O in the same interface) and every template-data combination skip-ensure x stub-impl x with-resets, set at root level, at interface level on every interface, and at interface level on every other interface of the file (each mock then driven with its own effective settings): all operation sequences up to the depth over {set MFunc f0/f2/nil, call M with 3 argument tuples incl. zero/nil/empty-variadic, call O, MCalls, ResetMCalls, ResetCalls}, each replayed on a fresh mock through reflection and compared step by step with the list model (exactly-once forwarding, results unchanged, records = arguments in order under exported(parameter name), nil func => panic naming MFunc or stub zero values, resets clear exactly their list, earlier snapshots unchanged); states = distinct (method, model state) pairs reached")
 	c.Ev.Assume("a history ends at the nil-func panic (the statement does not say whether such a call is recorded)")
 	c.Ev.Assume("mocks that do not compile are C01's subject and are skipped here (listed in skipped_uncompilable_mocks)")
 	return nil
